@@ -608,6 +608,29 @@ theorem C03_json_range_coercion_partial (col : JsonRange.ColT) (lo hi : JsonRang
   rw [JsonRange.inRangeN_eq, JsonRange.specMatch_eq, JsonRange.lower_exact col lo v hv hlo hokl,
     JsonRange.upper_exact col hi v hv hhi hoku]
 
+/-- the repaired table (the three rows as `tools/fixes/pending/C03-json-range-bound-conversions.patch`
+writes them) is exact for every bound kind, bound type and integer column type, without any side
+condition -/
+theorem C03_json_range_coercion (col : JsonRange.ColT) (lo hi : JsonRange.B) (v : Int)
+    (hv : JsonRange.inCol col v) (hlo : lo.wf) (hhi : hi.wf) :
+    JsonRange.implMatchG JsonRange.Guards.repaired col lo hi v = JsonRange.specMatch lo hi v := by
+  unfold JsonRange.implMatchG
+  rw [JsonRange.inRangeN_eq, JsonRange.specMatch_eq, JsonRange.lower_exact_repaired col lo v hv hlo,
+    JsonRange.upper_exact_repaired col hi v hv hhi]
+
+/-- the table the driver executes follows the guards read from the source: it is the pinned table
+(exact under `lowerOk` / `upperOk`) or the repaired one (exact), whichever the source has -/
+theorem C03_json_range_coercion_extracted (col : JsonRange.ColT) (lo hi : JsonRange.B) (v : Int)
+    (hv : JsonRange.inCol col v) (hlo : lo.wf) (hhi : hi.wf)
+    (hg : JsonRange.Guards.extracted = JsonRange.Guards.repaired
+          ∨ (JsonRange.Guards.extracted = JsonRange.Guards.pinned
+              ∧ JsonRange.lowerOk col lo = true ∧ JsonRange.upperOk col hi = true)) :
+    JsonRange.implMatchG JsonRange.Guards.extracted col lo hi v = JsonRange.specMatch lo hi v := by
+  rcases hg with hg | ⟨hg, hl, hu⟩
+  · rw [hg]; exact C03_json_range_coercion col lo hi v hv hlo hhi
+  · rw [hg, JsonRange.implMatchG_pinned]
+    exact C03_json_range_coercion_partial col lo hi v hv hlo hhi hl hu
+
 /-- integer-typed bounds (i64 / u64 terms): only the lower-bound condition remains -/
 theorem C03_json_int_range_coercion_partial (col : JsonRange.ColT) (lo hi : JsonRange.B) (v : Int)
     (hv : JsonRange.inCol col v) (hlo : lo.wf) (hhi : hi.wf) (hok : JsonRange.lowerOk col lo = true)
@@ -730,6 +753,11 @@ example :
     let d : ADoc := ⟨1, [⟨1, [97], [0]⟩, ⟨1, [120], [1]⟩, ⟨1, [98, 99], [2]⟩], []⟩
     semPhrasePrefix d 1 [(0, [97])] 2 [98] = true ∧ semPhrasePrefix d 1 [(0, [97])] 1 [98] = false
       ∧ maxOff [(0, [97]), (2, [98])] ≤ 5 := by decide
+example : JsonRange.Guards.extracted = JsonRange.Guards.repaired ∨ JsonRange.Guards.extracted = JsonRange.Guards.pinned := by
+  decide
+example : JsonRange.implMatchG JsonRange.Guards.repaired .u64 .unb (.incl (.f (-3))) 0 = false
+    ∧ JsonRange.implMatchG JsonRange.Guards.repaired .i64 (.incl (.f 5)) .unb 2 = false
+    ∧ JsonRange.implMatchG JsonRange.Guards.repaired .i64 (.incl (.u (2 ^ 63))) .unb 5 = false := by decide
 example : (JsonRange.B.excl (.f (-3))).small ∧ (JsonRange.B.incl (.i 7)).small
     ∧ JsonRange.implMatchF (.excl (.f (-3))) (.incl (.i 7)) 5 = true
     ∧ JsonRange.implMatchF (.excl (.f (-3))) (.incl (.i 7)) (-3) = false := by
